@@ -51,7 +51,7 @@ func (a Attack) String() string {
 
 var forgeries = []string{"flag-cleared-trailer-kept", "flag-cleared-no-trailer", "authcode-empty", "authcode-short", "authcode-random", "authcode-k2", "authcode-sik", "authcode-zero-key",
 	"authcode-other-session", "authcode-range-skips-first-byte", "authcode-range-includes-rmcp", "authcode-range-excludes-trailer", "wrong-session-id", "plaintext-unsigned",
-	"plaintext-unsigned-wrong-id", "pad-bytes-wrong", "pad-length-large", "pad-longer-than-data"}
+	"plaintext-unsigned-wrong-id", "flag-set-no-trailer", "flag-set-ff-only", "plaintext-flag-set-no-trailer", "plaintext-flag-set-ff-only", "pad-bytes-wrong", "pad-length-large", "pad-longer-than-data"}
 
 // commands with a response body whose value the forger changes
 var cmdNames = []string{"GetSystemGUID", "GetDeviceID", "GetChannelAuthenticationCapabilities"}
@@ -80,6 +80,7 @@ type parts struct {
 	code       []byte
 	pad        int
 	rangeStart int // offset into the session header where the signed range starts (0 = auth type byte)
+	ffOnly     int // no trailer, but this many 0xFF bytes after the payload
 }
 
 func sessionHeader(p parts) []byte {
@@ -147,6 +148,14 @@ func attackDatagram(a Attack, R []byte, s *simbmc.Session, b *simbmc.BMC, other 
 		p.rangeStart = 1000
 	case "wrong-session-id":
 		p.sid = s.ConsoleID ^ (1 << uint(a.Param%32))
+	case "flag-set-no-trailer":
+		p.trailer = false
+	case "flag-set-ff-only":
+		p.trailer, p.ffOnly = false, 1+a.Param%3
+	case "plaintext-flag-set-no-trailer":
+		p.enc, p.trailer, p.payload = false, false, forged
+	case "plaintext-flag-set-ff-only":
+		p.enc, p.trailer, p.payload, p.ffOnly = false, false, forged, 1+a.Param%3
 	case "plaintext-unsigned":
 		p.enc, p.auth, p.trailer, p.payload = false, false, false, forged
 	case "plaintext-unsigned-wrong-id":
@@ -181,6 +190,9 @@ func attackDatagram(a Attack, R []byte, s *simbmc.Session, b *simbmc.BMC, other 
 	hdr := sessionHeader(p)
 	d := append(append([]byte(nil), ref.RMCPHeader...), hdr...)
 	if !p.trailer {
+		for i := 0; i < p.ffOnly; i++ {
+			d = append(d, 0xFF)
+		}
 		return d
 	}
 	n := len(hdr) + 2
@@ -281,6 +293,13 @@ func runAttack(t *rapid.T, c hx.Creds, cmdName string, a Attack, fixedDraw int) 
 	}
 	if a.Kind == "forge" && r.differs && r.sends < 2 {
 		r.msg = fmt.Sprintf("command completed after a single transmission although the only reply delivered was the forgery")
+	}
+	// every truncation removes at least the end of the AuthCode, and every bit
+	// beyond the 4-byte RMCP header is either covered by the AuthCode or part of
+	// it: such a datagram lacks a valid AuthCode and cannot be what the command
+	// completed on, even if the value happens to be intact
+	if r.differs && r.sends < 2 && (a.Kind == "cut" || (a.Kind == "flip" && a.Bit >= 32)) {
+		r.msg = fmt.Sprintf("command completed after a single transmission on a tampered datagram (%v) that cannot carry a valid AuthCode", a)
 	}
 	return
 }
